@@ -4,8 +4,9 @@ C10: the block `create_comment` produces in *multi-line* mode is read back exact
 (the guard of `_create_comment_multi`) and whatever follows the block's line end.
 
 The style-side condition `MultiOK` (decidable, checked over the generated table by `decide +kernel`
-in `Theorems/C10.lean`) is the true condition: each of its three "terminator" clauses is necessary
-(see the comments at the definition).
+in `Theorems/C10.lean`) is the true condition: each of its "terminator" clauses is necessary
+(see the comments at the definition).  The reader stops at the first line that *holds* the terminator
+(the opener on the first line aside) and accepts it when only white space follows the terminator there.
 -/
 import ReuseVerif.Lemmas.ReadBack
 import ReuseVerif.Lemmas.Str
@@ -91,17 +92,20 @@ def midLine (s : Style) (line : Text) : Text :=
 
 /-- the decidable style condition under which the multi-line block is read back, for every text.
     * no marker or indentation contains a line boundary;
-    * the opener line does not end with the terminator (else the block found is the opener alone);
-    * the prefix of a body line does not end with the terminator (else an empty text line ends the block);
+    * the terminator is not empty and does not end in white space (white space behind the terminator is set
+      aside before the closing line is tested);
+    * the prefix of a body line, with and without the indentation that follows it, does not hold the terminator
+      (else an empty / any text line ends the block);
     * no non-empty end of `prefix + indentation` is a proper beginning of the terminator (else a text line that
-      is the rest of the terminator — it does not *contain* the terminator — completes one across the
+      begins with the rest of the terminator — it does not *contain* the terminator — completes one across the
       boundary between marker and text and ends the block early). -/
 def MultiOK (s : Style) : Prop :=
   s.canMulti = true ∧ s.isEmptyStyle = false ∧
   NoBreak s.mStart ∧ NoBreak s.mMiddle ∧ NoBreak s.mEnd ∧ NoBreak s.indentBeforeMiddle ∧
   NoBreak s.indentAfterMiddle ∧ NoBreak s.indentBeforeEnd ∧
-  endsWith s.mStart s.mEnd = false ∧
-  endsWith (midPrefix s) s.mEnd = false ∧
+  ((s.mEnd.getLast?).map isSpace).getD true = false ∧
+  contains (midPrefix s) s.mEnd = false ∧
+  contains (midPrefix s ++ s.indentAfterMiddle) s.mEnd = false ∧
   (∀ k, k < (midPrefix s ++ s.indentAfterMiddle).length →
     ((midPrefix s ++ s.indentAfterMiddle).drop k).length < s.mEnd.length →
     startsWith s.mEnd ((midPrefix s ++ s.indentAfterMiddle).drop k) = false)
@@ -123,55 +127,102 @@ theorem createMulti_eq {s : Style} (h : s.canMulti = true) {text blk : Text} (hb
     simp only [Except.ok.injEq] at hb
     exact ⟨by simpa using hc, hb.symm⟩
 
-/-- a body line does not end with the terminator when the text line does not contain it -/
-theorem midLine_not_end {s : Style} (h : MultiOK s) {line : Text} (hl : ∀ a b, line ≠ a ++ s.mEnd ++ b) :
-    endsWith (midLine s line) s.mEnd = false := by
-  obtain ⟨_, _, _, _, _, _, _, _, _, hPE, hOv⟩ := h
-  cases hew : endsWith (midLine s line) s.mEnd with
+/-- an occurrence can be cut out -/
+theorem contains_cut {pat s : Text} (h : contains s pat = true) : ∃ a b, s = a ++ pat ++ b := by
+  unfold contains at h
+  cases hf : findSub pat s with
+  | none => simp [hf] at h
+  | some i =>
+    have hp := findSub_some_prefix hf
+    obtain ⟨b, hb⟩ := List.isPrefixOf_iff_prefix.mp hp
+    exact ⟨s.take i, b, by rw [List.append_assoc, hb, List.take_append_drop]⟩
+
+theorem contains_of_cut {pat : Text} (a b : Text) : contains (a ++ pat ++ b) pat = true := by
+  cases h : contains (a ++ pat ++ b) pat with
+  | true => rfl
+  | false => exact absurd rfl (not_contains_infix h a b)
+
+/-- a body line does not hold the terminator when the text line does not -/
+theorem midLine_no_end {s : Style} (h : MultiOK s) {line : Text} (hl : ∀ a b, line ≠ a ++ s.mEnd ++ b) :
+    contains (midLine s line) s.mEnd = false := by
+  obtain ⟨_, _, _, _, _, _, _, _, _, hP0, hP, hOv⟩ := h
+  cases hc : contains (midLine s line) s.mEnd with
   | false => rfl
   | true =>
     exfalso
-    unfold midLine at hew
+    obtain ⟨a, b, hab⟩ := contains_cut hc
+    unfold midLine at hab
     by_cases hle : line.isEmpty = true
-    · simp only [hle, if_true, List.append_nil] at hew
-      rw [hPE] at hew; cases hew
-    · simp only [hle, Bool.false_eq_true, if_false] at hew
-      rw [← List.append_assoc] at hew
-      have hne : line ≠ [] := by intro h0; apply hle; simp [h0]
-      obtain ⟨t, ht⟩ : s.mEnd <:+ (midPrefix s ++ s.indentAfterMiddle) ++ line := List.isSuffixOf_iff_suffix.mp hew
-      rcases List.append_eq_append_iff.mp ht with ⟨a', hX, hE⟩ | ⟨c', ht', hline⟩
-      · -- the terminator straddles the boundary: `mEnd = a' ++ line`
-        have hlen : a'.length < s.mEnd.length := by
-          rw [hE]
-          have : 0 < line.length := List.length_pos_iff.mpr hne
-          simp only [List.length_append]; omega
-        have ha' : a' ≠ [] := by
-          intro h0
-          subst h0
-          exact hl [] [] (by simpa using hE.symm)
-        have hk : t.length < (midPrefix s ++ s.indentAfterMiddle).length := by
-          rw [hX]
-          have : 0 < a'.length := List.length_pos_iff.mpr ha'
-          simp only [List.length_append]; omega
-        have hdrop : (midPrefix s ++ s.indentAfterMiddle).drop t.length = a' := by
-          rw [hX]; exact List.drop_left' rfl
-        have := hOv t.length hk (by rw [hdrop]; exact hlen)
-        rw [hdrop] at this
-        have hpre : startsWith s.mEnd a' = true := List.isPrefixOf_iff_prefix.mpr ⟨line, hE.symm⟩
-        rw [hpre] at this; cases this
-      · exact hl c' [] (by simpa using hline)
+    · simp only [hle, if_true, List.append_nil] at hab
+      exact not_contains_infix hP0 a b hab
+    · simp only [hle, Bool.false_eq_true, if_false] at hab
+      rw [← List.append_assoc, List.append_assoc a] at hab
+      rcases List.append_eq_append_iff.mp hab with ⟨a', ha, hline⟩ | ⟨c', hPc, hrest⟩
+      · -- the occurrence lies in the text line
+        exact hl a' b (by rw [hline]; simp)
+      · rcases List.append_eq_append_iff.mp hrest with ⟨d, hc', _⟩ | ⟨d, hE, hline⟩
+        · -- the occurrence lies in the prefix
+          exact not_contains_infix hP a d (by rw [hPc, hc']; simp)
+        · by_cases hc0 : c' = []
+          · subst hc0
+            exact hl [] b (by rw [hline]; simp at hE; rw [hE]; simp)
+          · by_cases hd0 : d = []
+            · subst hd0
+              simp only [List.append_nil] at hE
+              exact not_contains_infix hP a [] (by rw [hPc, hE]; simp)
+            · -- the terminator straddles the boundary: `mEnd = c' ++ d`, `c'` a non-empty end of the prefix
+              have hk : a.length < (midPrefix s ++ s.indentAfterMiddle).length := by
+                rw [hPc]
+                have : 0 < c'.length := List.length_pos_iff.mpr hc0
+                simp only [List.length_append]; omega
+              have hdrop : (midPrefix s ++ s.indentAfterMiddle).drop a.length = c' := by
+                rw [hPc]; exact List.drop_left' rfl
+              have hlen : c'.length < s.mEnd.length := by
+                rw [hE]
+                have : 0 < d.length := List.length_pos_iff.mpr hd0
+                simp only [List.length_append]; omega
+              have := hOv a.length hk (by rw [hdrop]; exact hlen)
+              rw [hdrop] at this
+              have hpre : startsWith s.mEnd c' = true := List.isPrefixOf_iff_prefix.mpr ⟨d, hE.symm⟩
+              rw [hpre] at this; cases this
 
-/-- the reader skips lines that do not end with the terminator and stops at the first that does -/
-theorem multiEnd_skip (s : Style) (A : List Text) (l : Text) (X : List Text) (i : Nat)
-    (hA : ∀ m ∈ A, endsWith m s.mEnd = false) (hl : endsWith l s.mEnd = true) :
+/-- below the first line, the reader skips lines that do not hold the terminator and stops at the first that
+    does, accepting it when nothing but white space follows the terminator there -/
+theorem multiEnd_skip_pos (s : Style) (A : List Text) (l : Text) (X : List Text) (i : Nat) (hi : i ≠ 0)
+    (hA : ∀ m ∈ A, contains m s.mEnd = false) (hl1 : contains l s.mEnd = true)
+    (hl2 : endsWith (rstrip l) s.mEnd = true) :
     multiEnd s (A ++ l :: X) i = some (i + A.length) := by
+  have hi0 : (i == 0) = false := by simpa using hi
   induction A generalizing i with
-  | nil => simp [multiEnd, hl]
+  | nil => simp [multiEnd, closesIn, hi0, hl1, hl2]
   | cons m ms ih =>
-    simp only [List.cons_append, multiEnd, hA m (by simp), Bool.false_eq_true, if_false]
-    rw [ih (i + 1) (fun x hx => hA x (by simp [hx]))]
+    simp only [List.cons_append, multiEnd, closesIn, hi0, Bool.false_eq_true, if_false, hA m (by simp)]
+    rw [ih (i + 1) (by omega) (fun x hx => hA x (by simp [hx])) (by simp)]
     simp only [List.length_cons]
     congr 1; omega
+
+/-- the same from the first line on: the opener is set aside there -/
+theorem multiEnd_skip (s : Style) (first : Text) (B : List Text) (l : Text) (X : List Text)
+    (h0 : contains (first.drop s.mStart.length) s.mEnd = false)
+    (hB : ∀ m ∈ B, contains m s.mEnd = false) (hl1 : contains l s.mEnd = true)
+    (hl2 : endsWith (rstrip l) s.mEnd = true) :
+    multiEnd s (([first] ++ B) ++ l :: X) 0 = some (0 + ([first] ++ B).length) := by
+  simp only [List.cons_append, List.nil_append, multiEnd, closesIn, beq_self_eq_true, if_true, h0,
+    Bool.false_eq_true, if_false]
+  rw [multiEnd_skip_pos s B l X (0 + 1) (by omega) hB hl1 hl2]
+  simp only [List.length_cons]
+  congr 1; omega
+
+theorem rstrip_of_last' {u : Text} (h : ∀ c, u.getLast? = some c → isSpace c = false) : rstrip u = u := by
+  unfold rstrip
+  have : u.reverse.dropWhile isSpace = u.reverse := by
+    cases hr : u.reverse with
+    | nil => rfl
+    | cons c cs =>
+      have : u.getLast? = some c := by
+        rw [← List.head?_reverse, hr]; rfl
+      simp [List.dropWhile_cons, h c this]
+  rw [this, List.reverse_reverse]
 
 theorem join_cons_ne (x : Text) (xs : List Text) (h : xs ≠ []) :
     join ['\n'] (x :: xs) = x ++ '\n' :: join ['\n'] xs := by
@@ -190,7 +241,7 @@ theorem multi_readback {s : Style} (h : MultiOK s) (text : Text) (hno : NoExotic
     (hblk : createMulti s text = .ok blk) (rest : Text) :
     commentAtFirst s (blk ++ '\n' :: rest) = .ok blk := by
   have hS := h
-  obtain ⟨hcm, hes, hnbS, hnbM, hnbE, hnbIBM, hnbIAM, hnbIBE, hSE, _, _⟩ := h
+  obtain ⟨hcm, hes, hnbS, hnbM, hnbE, hnbIBM, hnbIAM, hnbIBE, hLast, _, _, _⟩ := h
   obtain ⟨hnc, hblk'⟩ := createMulti_eq hcm hblk
   obtain ⟨hne, hpieces⟩ := splitOn_lf_noBreak text hno
   have hinf : ∀ p ∈ splitOn ['\n'] text, ∀ a b, p ≠ a ++ s.mEnd ++ b := fun p hp => piece_no_infix hnc hp
@@ -209,10 +260,10 @@ theorem multi_readback {s : Style} (h : MultiOK s) (text : Text) (hno : NoExotic
     split
     · simpa using hnbP
     · exact noBreak_append hnbP (noBreak_append hnbIAM (hpieces l hl))
-  have hBend : ∀ m ∈ L.map (midLine s), endsWith m s.mEnd = false := by
+  have hBend : ∀ m ∈ L.map (midLine s), contains m s.mEnd = false := by
     intro m hm
     obtain ⟨l, hl, rfl⟩ := List.mem_map.mp hm
-    exact midLine_not_end hS (hinf l hl)
+    exact midLine_no_end hS (hinf l hl)
   generalize L.map (midLine s) = B at hBnb hBend ⊢
   have hMnb : ∀ m ∈ [s.mStart] ++ B ++ [s.indentBeforeEnd ++ s.mEnd], NoBreak m := by
     intro m hm
@@ -231,16 +282,30 @@ theorem multi_readback {s : Style} (h : MultiOK s) (text : Text) (hno : NoExotic
     rw [this, join_cons_ne _ _ (by simp)]
     exact List.isPrefixOf_iff_prefix.mpr
       ⟨'\n' :: (join ['\n'] (B ++ [s.indentBeforeEnd ++ s.mEnd]) ++ '\n' :: rest), by simp⟩
-  -- the first line that ends with the terminator is the block's last line
-  have hA : ∀ m ∈ [s.mStart] ++ B, endsWith m s.mEnd = false := by
-    intro m hm
-    simp only [List.singleton_append, List.mem_cons] at hm
-    rcases hm with rfl | hm
-    · exact hSE
-    · exact hBend m hm
-  have hlast : endsWith (s.indentBeforeEnd ++ s.mEnd) s.mEnd = true :=
-    List.isSuffixOf_iff_suffix.mpr ⟨s.indentBeforeEnd, rfl⟩
-  have hend := multiEnd_skip s ([s.mStart] ++ B) (s.indentBeforeEnd ++ s.mEnd) (splitLinesAux false [] rest) 0 hA hlast
+  -- the first line that holds the terminator is the block's last line, and nothing follows the terminator there
+  have hEne : s.mEnd ≠ [] := by
+    intro h0; rw [h0] at hLast; simp at hLast
+  have h0 : contains (s.mStart.drop s.mStart.length) s.mEnd = false := by
+    rw [List.drop_length]
+    cases hE : s.mEnd with
+    | nil => exact absurd hE hEne
+    | cons c cs => simp [contains, findSub]
+  have hl1 : contains (s.indentBeforeEnd ++ s.mEnd) s.mEnd = true := by
+    have := contains_of_cut (pat := s.mEnd) s.indentBeforeEnd []
+    simpa using this
+  have hl2 : endsWith (rstrip (s.indentBeforeEnd ++ s.mEnd)) s.mEnd = true := by
+    rw [rstrip_of_last' (by
+      intro c hc
+      have hc' : s.mEnd.getLast? = some c := by
+        cases hE : s.mEnd.getLast? with
+        | none => exact absurd (List.getLast?_eq_none_iff.mp hE) hEne
+        | some d =>
+          rw [List.getLast?_append, hE] at hc
+          simpa using hc
+      rw [hc'] at hLast
+      simpa using hLast)]
+    exact List.isSuffixOf_iff_suffix.mpr ⟨s.indentBeforeEnd, rfl⟩
+  have hend := multiEnd_skip s s.mStart B (s.indentBeforeEnd ++ s.mEnd) (splitLinesAux false [] rest) h0 hBend hl1 hl2
   unfold commentAtFirst
   simp only [hes, Bool.false_eq_true, if_false, hcm, Bool.or_true, Bool.not_true, Bool.true_and, hopen, if_true,
     hlines, hend]
